@@ -1,2 +1,103 @@
 //! History driver (engine E1) and the Memvid-level monitors.
-pub fn main() {}
+//! usage: mvdrive <mode> --seed N --scratch DIR --out report.json [mode options]
+
+pub mod hist;
+pub mod sidecar;
+pub mod world;
+
+use std::path::PathBuf;
+
+use serde_json::Value;
+
+use crate::{Args, Report, Rng, h64};
+
+fn monitors_for(property: &str) -> &'static str {
+    match property {
+        "C07" => "c01,c07",
+        "C19" => "c01,c19",
+        "C17" => "c01,c17",
+        _ => "c01,c06",
+    }
+}
+
+fn cfg_from(args: &Args, property: &str) -> hist::HistCfg {
+    hist::HistCfg {
+        ops: args.u64("ops", 40) as usize,
+        monitors: args.str("monitors").unwrap_or(monitors_for(property)).split(',').map(str::to_string).collect(),
+        small_only: args.flag("small"),
+        with_embeddings: args.flag("embeddings"),
+        maintenance: !args.flag("no-maintenance"),
+        ts_mode: args.u64("ts-mode", 0),
+        check_every: args.u64("check-every", 4).max(1),
+    }
+}
+
+const HIST_RULE: &str = "random histories of create/put (13 payload classes sized to fill, wrap and grow the 64 KiB log)/update/delete/failing calls/commit/drop+reopen/vacuum/doctor/batch mode against a sequential reference model; a case is one operation; distinct = distinct histories";
+
+fn hist_mode(args: &Args, property: &str) -> Report {
+    let seed = args.u64("seed", 1);
+    let scratch = PathBuf::from(args.str("scratch").unwrap_or("."));
+    let cfg = cfg_from(args, property);
+    let mut rep = Report::new(property, &format!("history[{}]", cfg.monitors.join(",")), seed, HIST_RULE);
+    let histories = args.u64("histories", 3);
+    let mut rng = Rng::new(seed);
+    for h in 0..histories {
+        let dir = scratch.join(format!("h{h}"));
+        let _ = std::fs::create_dir_all(&dir);
+        let fp = hist::run_history(&mut rep, &dir, rng.fork(), &cfg);
+        rep.nontrivial(fp ^ h64(&h.to_le_bytes()));
+        rep.count("histories");
+        let _ = std::fs::remove_dir_all(&dir);
+    }
+    for c in ["puts_acknowledged", "commits", "reopens", "materialisations", "frames_compared"] {
+        rep.require(c);
+    }
+    rep
+}
+
+pub fn main() {
+    let args = Args::parse();
+    let mode = args.pos.first().cloned().unwrap_or_default();
+    let out = args.str("out").map(str::to_string);
+    std::panic::set_hook(Box::new(|info| {
+        if std::env::var("MVDRIVE_PANIC_TRACE").is_ok() {
+            eprintln!("{info}");
+        }
+    }));
+    if std::env::var("MVDRIVE_PHASES").is_ok() {
+        memvid_core::verif_hooks::set_phase_sink(Some(|name, enter| eprintln!("PHASE {} {name}", if enter { "enter" } else { "exit " })));
+    }
+    let rep = match mode.as_str() {
+        "hist" => {
+            let property = args.str("property").unwrap_or("C01").to_string();
+            hist_mode(&args, &property)
+        }
+        "replay" => {
+            let property = args.str("property").unwrap_or("C01").to_string();
+            let scratch = PathBuf::from(args.str("scratch").unwrap_or("."));
+            let mut rep = Report::new(&property, "history-replay", 0, "replay of one recorded history");
+            let detail: Value = args.str("replay").and_then(|p| std::fs::read_to_string(p).ok()).and_then(|s| serde_json::from_str(&s).ok()).unwrap_or(Value::Null);
+            let ops: Vec<Value> = detail.get("history").and_then(Value::as_array).cloned().unwrap_or_default();
+            let cfg = cfg_from(&args, &property);
+            let dir = scratch.join("replay");
+            let _ = std::fs::create_dir_all(&dir);
+            hist::replay_history(&mut rep, &dir, &ops, &cfg);
+            if std::env::var("MVDRIVE_KEEP").is_err() {
+                let _ = std::fs::remove_dir_all(&dir);
+            }
+            rep
+        }
+        "sidecar" => {
+            let seed = args.u64("seed", 1);
+            let scratch = PathBuf::from(args.str("scratch").unwrap_or("."));
+            let mut rep = Report::new("C19", "sidecar-refusal", seed, "each of the 8 forbidden sidecar names next to a committed memory x open/open_read_only/create; distinct = distinct (sidecar, api) pairs refused");
+            sidecar::run(&mut rep, &scratch, &mut Rng::new(seed), args.u64("rounds", 2));
+            rep
+        }
+        other => {
+            eprintln!("unknown mode {other}");
+            std::process::exit(2);
+        }
+    };
+    rep.finish(out.as_deref());
+}
